@@ -392,6 +392,9 @@ func (w *worker) runUnit(uid, fromItem, fromEntry int, disabled map[int]bool) {
 			}
 		}
 	}
+	// adaptive batch size: a unit whose calls allocate megabytes each (still
+	// within the bound) would otherwise be re-measured call by call all the time
+	batchMax, clean := 256, 0
 	flush := func() {
 		if len(batch) == 0 {
 			return
@@ -399,6 +402,12 @@ func (w *worker) runUnit(uid, fromItem, fromEntry int, disabled map[int]bool) {
 		runtime.ReadMemStats(&ms)
 		if ms.TotalAlloc-batchStart > allocBase {
 			remeasure()
+			clean = 0
+			if batchMax > 1 {
+				batchMax /= 2
+			}
+		} else if clean++; clean >= 8 && batchMax < 256 {
+			batchMax, clean = batchMax*2, 0
 		}
 		batch = batch[:0]
 		arena = arena[:0]
@@ -479,7 +488,9 @@ func (w *worker) runUnit(uid, fromItem, fromEntry int, disabled map[int]bool) {
 				hist[famOf[k]|clsNilNil]++
 			case err == nil:
 				okCnt[k]++
-				accepted = true
+				if e.fam != "cryptobyte" { // fixed-width readers accept almost anything: not "non-trivial"
+					accepted = true
+				}
 				hist[famOf[k]|clsOK]++
 			default:
 				errCnt[k]++
@@ -489,7 +500,7 @@ func (w *worker) runUnit(uid, fromItem, fromEntry int, disabled map[int]bool) {
 		if accepted {
 			res.Accepted++
 		}
-		if len(batch) >= 256 || len(arena) > 2<<20 {
+		if len(batch) >= batchMax || len(arena) > 2<<20 {
 			flush()
 		}
 		return true
